@@ -12,7 +12,7 @@ def qdesc(q):
     return {k: q[k] for k in ("kind", "run_debug", "target", "exclude", "root")}
 
 
-def run(pid, tier, seed, res, seeds_extra=None):
+def run(pid, tier, seed, res, seeds_extra=None, only=None):
     rng = random.Random(seed * 104729 + 7)
     ncases = 150 if tier == "quick" else 2500
     cases = []
@@ -29,6 +29,8 @@ def run(pid, tier, seed, res, seeds_extra=None):
         dict(kind="call", run_debug=False, target=None, exclude=None, root=None, in_hypothesis=True)]))
     for _ in range(ncases):
         cases.append(kgraph.gen_queries(rng, kgraph.gen_graph_case(rng, max_n=7 if tier == "quick" else 9), k=6))
+    if only is not None:
+        cases = list(only)
     items = []
     where = []
     dist = collections.Counter()
